@@ -211,6 +211,33 @@ func genExposureWorld(g *rng.R, allowUnusedNs bool) *world.World {
 		w.NetPols = append(w.NetPols, own)
 		w.AddFeature("nsNameOperator")
 	}
+	// a namespace selected by its name AND further labels in one selector ({kubernetes.io/metadata.name: N, env: a}): N is a namespace of
+	// the input or one that does not exist yet; the extra requirement is part of what the rule allows and of what the report must say
+	if gi := rng.New("exposure-ns-name-plus-labels", int64(len(w.NetPols)), len(w.Workloads), w.Hash()); gi.P(0.2) && len(w.NetPols) > 0 {
+		name := "futurens"
+		if gi.P(0.4) {
+			name = rng.Pick(gi, w.Namespaces).Name
+		}
+		sel := &world.Sel{ML: map[string]string{world.MetaName: name, rng.Pick(gi, world.Keys): rng.Pick(gi, world.Vals)}}
+		var podSel *world.Sel
+		switch gi.Intn(3) {
+		case 0:
+			podSel = &world.Sel{}
+		case 1:
+			podSel = &world.Sel{ML: map[string]string{rng.Pick(gi, world.Keys): rng.Pick(gi, world.Vals)}}
+		}
+		np := &w.NetPols[gi.Intn(len(w.NetPols))]
+		rule := world.NPRule{Peers: []world.NPPeer{{PodSel: podSel, NsSel: sel}}, Ports: []world.NPPort{{Port: rng.Pick(gi, world.PortNums)}}}
+		if gi.P(0.5) {
+			np.Ingress = append(np.Ingress, rule)
+		} else {
+			np.Egress = append(np.Egress, rule)
+			if np.HasTypes && !np.HasDirection(false) {
+				np.PolicyTypes = append(np.PolicyTypes, "Egress")
+			}
+		}
+		w.AddFeature("nsNamePlusLabels")
+	}
 	if len(pool) > 1 {
 		for k := g.Intn(3); k > 0; k-- {
 			a, b := pool[g.Intn(len(pool))], pool[g.Intn(len(pool))]
@@ -600,6 +627,48 @@ func judgeExposure(c *run.Ctx, w *world.World, exp *observe.ListResult, prop str
 			l[k] = v
 		}
 		nss = append(nss, nsCase{"newns", l, true})
+	}
+	// ... and a new one under every name the policies mention that no namespace of the input carries
+	mentioned := map[string]bool{}
+	for i := range w.NetPols {
+		for _, rules := range [][]world.NPRule{w.NetPols[i].Ingress, w.NetPols[i].Egress} {
+			for _, ru := range rules {
+				for _, p := range ru.Peers {
+					if p.NsSel == nil {
+						continue
+					}
+					if v, ok := p.NsSel.ML[world.MetaName]; ok {
+						mentioned[v] = true
+					}
+					for _, e := range p.NsSel.ME {
+						if e.Key == world.MetaName {
+							for _, v := range e.Vals {
+								mentioned[v] = true
+							}
+						}
+					}
+				}
+			}
+		}
+	}
+	for _, n := range world.SortedKeys(func() map[string]string {
+		m := map[string]string{}
+		for k := range mentioned {
+			m[k] = ""
+		}
+		return m
+	}()) {
+		if w.NsByName(n) != nil || n == "newns" {
+			continue
+		}
+		for _, ls := range nsLabelSets {
+			l := map[string]string{world.MetaName: n}
+			for k, v := range ls {
+				l[k] = v
+			}
+			nss = append(nss, nsCase{n, l, true})
+		}
+		r.Ev("hypothetical_namespaces_named_by_a_selector", 1)
 	}
 	anySelectorEntry, anySpecific := false, false
 	nviol := 0
